@@ -127,6 +127,41 @@ def build(chk):
         if drv in defined:
             seeds[(drv, pos)] = {n for _, n in targets}
     prog = omp.Program(tus, seeds)
+    # Second look, only when needed: a callee that no .c file defines (a `static inline` helper living in a
+    # repository header is part of the TU) or an indirect call without target (constant table of function
+    # pointers at file scope).  sa.cfacts keeps neither; sa.omp.load_extra_decls reads them.
+    need = set()
+    for name, f in prog.funcs.items():
+        for c in f.calls:
+            names, indirect = prog.call_targets(f, c)
+            if indirect and not names:
+                need.add(f.tu.rel)
+            for nm in names:
+                if nm in prog.unknown_externals:
+                    need.add(f.tu.rel)
+    if need:
+        gtables = {}
+        added = 0
+        for rel in sorted(need):
+            if rel not in cfacts.C_FILES:
+                continue
+            htus, gt = omp.load_extra_decls(tree, rel)
+            for k, v in gt.items():
+                gtables.setdefault(k, set()).update(v)
+            for hrel, htu in htus.items():
+                if hrel in tus:
+                    for fn_, d_ in htu.funcs.items():
+                        tus[hrel].funcs.setdefault(fn_, d_)
+                else:
+                    tus[hrel] = htu
+                added += len(htu.funcs)
+        if added or gtables:
+            chk.count("functions defined in repository headers", added)
+            chk.count("constant function-pointer tables", len(gtables))
+            defined = set()
+            for tu in tus.values():
+                defined |= set(tu.funcs)
+            prog = omp.Program(tus, seeds, gtables)
     return tus, prog, table, defined
 
 
@@ -702,6 +737,10 @@ def mutants(tree):
     m.append(Mutant("zero branch of the sibling clears one row more than nc * deg (SDMXeval_sph_iter)", FS,
                     expect="fill-extent",
                     fn=_in_func(FS, "SDMXeval_sph_iter", "nc * deg);", "nc * deg + 1);")))
+    m.append(Mutant("output block selected only by the quotient k / nblk of the worksharing variable (SDMXeval_loop)", FS,
+                    expect="shared-store",
+                    fn=_in_func(FS, "SDMXeval_loop", "ao_loc, buf, ao + aoff * Ngrids + ip, coord + ip,",
+                                "ao_loc, buf, ao + aoff * Ngrids, coord + ip,")))
     m.append(Mutant("callback run by the parallel driver stores to a global (GTOcontract_flapl0)", FL,
                     expect="callback-global",
                     fn=_in_func(FL, "GTOcontract_flapl0", "    double *my_spline = SPLINE + l * 4 * SPLINE_SIZE;\n",
